@@ -35,17 +35,26 @@ fn min3(a: i64, b: i64, c: i64) -> i64 {
     if m < c { m } else { c }
 }
 
+// Every row's TRADE date lies a symbolic 0..3 days before its settlement date,
+// independently per row: the window is defined on settlement dates, and a
+// scan that looked at trade dates would disagree with the oracle near the
+// 30/31-day boundary.
+fn traded(mut t: Tx, settle_day: i64) -> Tx {
+    let gap = any_in(0, 3);
+    t.trade_date = date(settle_day - gap);
+    t
+}
 fn a_sale(af: u8, n: i64, idx: u32) -> Tx {
-    tx(aff(af), date(SALE_DAY), idx, sell(pos(n, 0), gez(1, 0), gez(0, 0), cad(), None, None))
+    traded(tx(aff(af), date(SALE_DAY), idx, sell(pos(n, 0), gez(1, 0), gez(0, 0), cad(), None, None)), SALE_DAY)
 }
 fn a_buy(af: u8, x: i64, day: i64, idx: u32) -> Tx {
-    tx(aff(af), date(day), idx, buy(pos(x, 0), gez(1, 0), gez(0, 0), cad(), None))
+    traded(tx(aff(af), date(day), idx, buy(pos(x, 0), gez(1, 0), gez(0, 0), cad(), None)), day)
 }
 fn a_sell(af: u8, z: i64, day: i64, idx: u32) -> Tx {
-    tx(aff(af), date(day), idx, sell(pos(z, 0), gez(1, 0), gez(0, 0), cad(), None, None))
+    traded(tx(aff(af), date(day), idx, sell(pos(z, 0), gez(1, 0), gez(0, 0), cad(), None, None)), day)
 }
 fn a_split(af: u8, post: i64, pre: i64, day: i64, idx: u32) -> Tx {
-    tx(aff(af), date(day), idx, split(pos(post, 0), pos(pre, 0), false))
+    traded(tx(aff(af), date(day), idx, split(pos(post, 0), pos(pre, 0), false)), day)
 }
 
 /// State just before the sale: `bd`, `bb`, `br` shares held by default / b /
